@@ -320,6 +320,7 @@ class KnownMultiplierStringType(Type):
 
     TAG = None
     ENCODING = None
+    BYTES_PER_CHARACTER = 1
 
     def __init__(self,
                  name,
@@ -334,7 +335,8 @@ class KnownMultiplierStringType(Type):
         if minimum is not None or maximum is not None:
             if not has_extension_marker:
                 if minimum == maximum:
-                    self.number_of_bytes = minimum
+                    self.number_of_bytes = (minimum
+                                            * self.BYTES_PER_CHARACTER)
 
     def encode(self, data, encoder):
         encoded = data.encode(self.ENCODING)
@@ -1073,6 +1075,7 @@ class BMPString(KnownMultiplierStringType):
 
     TAG = Tag.BMP_STRING
     ENCODING = 'utf-16-be'
+    BYTES_PER_CHARACTER = 2
 
 
 class GraphicString(KnownMultiplierStringType):
@@ -1085,6 +1088,7 @@ class UniversalString(KnownMultiplierStringType):
 
     TAG = Tag.UNIVERSAL_STRING
     ENCODING = 'utf-32-be'
+    BYTES_PER_CHARACTER = 4
 
 
 class TeletexString(KnownMultiplierStringType):
@@ -1366,13 +1370,17 @@ class Compiler(compiler.Compiler):
                                   *self.get_size_range(type_descriptor,
                                                        module_name))
         elif type_name == 'BMPString':
-            compiled = BMPString(name)
+            compiled = BMPString(name,
+                                 *self.get_size_range(type_descriptor,
+                                                      module_name))
         elif type_name == 'GraphicString':
             compiled = GraphicString(name)
         elif type_name == 'UTCTime':
             compiled = UTCTime(name)
         elif type_name == 'UniversalString':
-            compiled = UniversalString(name)
+            compiled = UniversalString(name,
+                                       *self.get_size_range(type_descriptor,
+                                                            module_name))
         elif type_name == 'GeneralizedTime':
             compiled = GeneralizedTime(name)
         elif type_name == 'DATE':
